@@ -47,7 +47,9 @@ Dbs == [ d1 |-> [tabs |-> (T :> [cols |-> TabA, rows |-> <<<<IntV(1), sa>>, <<In
                                             <<IntV(3), StrV([k \in 1..65536 |-> 98 + (k % 5)])>>>>]),
                  streams |-> << >>],
          \* 32 columns in a type mix (i16, i32, string(8), unlimited localizable string; nullable and not)
-         d5 |-> [tabs |-> (T :> [cols |-> Cols32, rows |-> <<Row32(1), Row32(2)>>]), streams |-> << >>] ]
+         d5 |-> [tabs |-> (T :> [cols |-> Cols32, rows |-> <<Row32(1), Row32(2)>>]), streams |-> << >>],
+         \* 33 columns: one more than create_table allows, which a file written by another tool may still have (MC_Corrupt)
+         d6 |-> [tabs |-> (T :> [cols |-> Cols32 \o <<IntCol(CName(33), "i16", TRUE, FALSE)>>, rows |-> <<Row32(1) \o <<IntV(7)>>>>]), streams |-> << >>] ]
 
 \* ---- layout choices -------------------------------------------------------
 LayoutChoices ==
@@ -87,7 +89,8 @@ BuildImage(db, c) ==
       appendRows(p, rows) == FoldLeft(LAMBDA acc, row : LET x == appendRow(acc.pool, row) IN [pool |-> x.pool, rows |-> Append(acc.rows, x.cells)],
                                       [pool |-> p, rows |-> <<>>], rows)
       a == appendRows(p0, SortByKey(TablesCols, cat.tables))
-      b == appendRows(a.pool, SortByKey(ColumnsCols, cat.columns))
+      \* "unsorted" also stores the rows of _Columns in descending order (a reader must order columns by Number)
+      b == appendRows(a.pool, IF c.unsorted THEN Reverse2(SortByKey(ColumnsCols, cat.columns)) ELSE SortByKey(ColumnsCols, cat.columns))
       \* other tools leave rows in _Validation that describe tables the database does not (or no longer) have
       vrows == IF Orphan(c) THEN cat.validation \o ValidationRows(<<71, 111, 110, 101>>, <<ColK, ColV>>) ELSE cat.validation
       v == IF c.validation THEN appendRows(b.pool, SortByKey(ValidationCols, vrows)) ELSE [pool |-> b.pool, rows |-> <<>>]
